@@ -111,6 +111,14 @@ def opLandscape (a : Array Rat) : String :=
   let l := landscapeCropped (a[0]! ≠ 0) img0 img1 (a[4]!, a[5]!, a[6]!)
   " ".intercalate (l.map fun p => Canon.canon p.1 ++ " " ++ Canon.canon p.2)
 
+/-- `score zncc n0 n1 n2 a... b...` → `num den2`. -/
+def opScore (a : Array Rat) : String :=
+  let n0 := (i a 1).toNat; let n1 := (i a 2).toNat; let n2 := (i a 3).toNat
+  let v := n0 * n1 * n2
+  let img0 : Img := ⟨n0, n1, n2, a.extract 4 (4 + v)⟩
+  let img1 : Img := ⟨n0, n1, n2, a.extract (4 + v) (4 + 2 * v)⟩
+  Canon.canon (scorePair (a[0]! ≠ 0) img0 img1)
+
 def dispatch (name : String) (a : Array Rat) : Option String :=
   match name with
   | "prepAffine" => some (flat (opPrepAffine a))
@@ -133,6 +141,7 @@ def dispatch (name : String) (a : Array Rat) : Option String :=
   | "pccCrop" => some (opPccCrop a)
   | "znccShape" => some (opZnccShape a)
   | "landscape" => some (opLandscape a)
+  | "score" => some (opScore a)
   | _ => none
 
 end Model
